@@ -18,6 +18,9 @@ def c14_sources(rng):
     out.append(Pkt(ty, d, ver=2, dev=0x1234, stream=0x56, seq=0x789A, ts=0x0102030405060708, ifid=0x0B0C0D0E, vend=0x0F10, flags=0x33, seg=4))
     ty, d = proto.valid_payload(rng, "cm")
     out.append(Pkt(ty, d, ver=3, dev=0x4321, stream=0x65, seq=0xA987, ts=0x0807060504030201, ifid=0x0E0D0C0B, vend=0x100F, flags=0x21, seg=8))
+    # payloads that are present but type-invalid and non-empty (what the decoder returns for a message rejected by inner validation)
+    out.append(Pkt(0x0000, bytes(20), ver=5, dev=21, stream=22, seq=23, ts=24, ifid=25, vend=26, flags=27, seg=0))
+    out.append(Pkt(0x0100, b"\x01\x02\x03", ver=5, dev=21, stream=22, seq=23, ts=24, ifid=25, vend=26, flags=27, seg=0))
     out.append(Pkt(0x01FF, b"\x5a", ver=4, dev=7, stream=8, seq=9, ts=10, ifid=11, vend=12, flags=13, seg=12))   # 1-byte generic
     out.append(Pkt(0x01FF, b"\x5b", ver=4, dev=7, stream=8, seq=9, ts=10, ifid=11, vend=12, flags=13, seg=12))   # differs in the payload byte only
     return out
